@@ -72,7 +72,8 @@ def _lattice_prio_case(seed):
     if not oracle_derivs.acyclic(base.rules):
         return out
     pats = {t.name: re.compile(t.pattern.to_regexp()) for t in base.terminals}
-    tprio = {t.name: t.priority for t in base.terminals}
+    decl = forestlib.declared_priorities(g)
+    tprio = {t.name: decl.get(t.name, 0) for t in base.terminals}
     ign = [pats[n_] for n_ in base.ignore_tokens]
     for _ in range(3):
         text = ''.join(rng.choice(['a', 'b', 'c', ' ', '  ', 'a ', ' b', 'aa']) for _ in range(rng.randint(1, 5)))
@@ -108,7 +109,7 @@ def _lattice_prio_case(seed):
             return ['T', str(r.alias or r.origin.name), [canon_d(c) if not isinstance(c[0], str) else ['t', c[0], text[c[1]:c[2]], c[1], c[2]] for c in ch]]
         def prio_d(d):
             r, ch = d
-            return (r.options.priority or 0) + sum(prio_d(c) if not isinstance(c[0], str) else tprio.get(c[0], 0) for c in ch)
+            return decl.get(str(r.origin.name), 0) + sum(prio_d(c) if not isinstance(c[0], str) else tprio.get(c[0], 0) for c in ch)
         table = {json.dumps(canon_d(d)): prio_d(d) for d in ds}
         def canon_t(t):
             if isinstance(t, Tree):
